@@ -283,6 +283,42 @@ func c15Main(r *engine.Run) {
 			}
 		})
 	}
+	// Z/M-carrying variants of the star family (shared end points carry different Z/M: the mod-2 rule is about XY)
+	for i, o := range StarFamily(id, 0) {
+		if i%4 == 0 {
+			items = append(items, item{withZM(o.G, geom.DimXYZ), true, "star family Z"}, item{withZM(o.G, geom.DimXYZM), true, "star family ZM"})
+		}
+	}
+	// tall shells with a vertex on the envelope's centre row and a triangular hole entirely above (or below) it,
+	// apex at every height: the scan line used by PointOnSurface is shifted between vertex rows
+	for _, H := range []int{8, 6} {
+		shell := []universe.LPt{{0, 0}, {16, 0}, {16, H / 2}, {16, H}, {0, H}, {0, 0}}
+		var hp []universe.LPt
+		for x := 2; x <= 14; x += 2 {
+			for y := H/2 + 1; y < H; y++ {
+				hp = append(hp, universe.LPt{X: x, Y: y})
+			}
+		}
+		for a := 0; a < len(hp); a++ {
+			for b := a + 1; b < len(hp); b++ {
+				for c := b + 1; c < len(hp); c++ {
+					if (hp[b].X-hp[a].X)*(hp[c].Y-hp[a].Y)-(hp[b].Y-hp[a].Y)*(hp[c].X-hp[a].X) == 0 {
+						continue
+					}
+					hole := []universe.LPt{hp[a], hp[b], hp[c], hp[a]}
+					for oi, t := range orients[:2] {
+						g := t.Polygon(shell, hole).AsGeometry()
+						if g.Validate() == nil {
+							items = append(items, item{g, true, "hole above the centre row"})
+							if oi == 0 && (a+b)%5 == 0 {
+								items = append(items, item{geom.NewMultiPolygon([]geom.Polygon{g.MustAsPolygon()}).AsGeometry(), true, "hole above the centre row (MultiPolygon)"})
+							}
+						}
+					}
+				}
+			}
+		}
+	}
 	// closed / self-touching / self-crossing lines
 	for _, l := range [][]universe.LPt{
 		{{0, 0}, {2, 0}, {1, 2}, {0, 0}}, {{0, 0}, {2, 2}, {2, 0}, {0, 2}, {0, 0}}, {{0, 0}, {2, 0}, {2, 2}, {1, 0}}, {{0, 0}, {1, 0}, {2, 0}, {1, 0}, {1, 2}},
